@@ -31,12 +31,14 @@ Proof.
   destruct (m_get_placements s m) as [[ts m1]|c1] eqn:Egp.
   2:{ unfold m_get_placements in Egp. destruct (find_queue (s_id s) (m_queues m)); [|injection Egp as <-; discriminate].
       destruct (cw_queue_short _ _); [injection Egp as <-; discriminate|discriminate]. }
-  destruct (if nonempty ts then w_place w s else Ok w) as [w1|c2] eqn:Ewp.
+  destruct (if nonempty ts then w_place w s (map t_id ts) else Ok w) as [w1|c2] eqn:Ewp.
   2:{ destruct (nonempty ts); [|discriminate]. unfold w_place in Ewp. destruct (s_bs s <? 1); [injection Ewp as <-; discriminate|].
+      destruct (existsb _ _ || negb _); [injection Ewp as <-; discriminate|].
       unfold res_allocate_multiple in Ewp. destruct (existsb _ _); [injection Ewp as <-; discriminate|].
       assert (Hseq : forall req v c, res_allocate_seq req v = Err c -> c = 2).
       { induction req as [|[[n i] q] req IHr]; intros v c Hc; cbn [res_allocate_seq] in Hc; [discriminate|].
-        unfold res_allocate in Hc. destruct (res_avail v n i <? q); [injection Hc as <-; reflexivity|]. eapply IHr; eassumption. }
+        unfold res_allocate in Hc. destruct (q <? 0); [injection Hc as <-; reflexivity|].
+        destruct (res_avail v n i <? q); [injection Hc as <-; reflexivity|]. eapply IHr; eassumption. }
       destruct (res_allocate_seq (s_res s) (w_res w)) eqn:Ers; [discriminate|]. injection Ewp as <-. rewrite (Hseq _ _ _ Ers). discriminate. }
   destruct (avail_strats now m1) as [[m2 ss2]|c3] eqn:Eav.
   2:{ unfold avail_strats in Eav. destruct (total_qlen _ =? 0); [discriminate|]. destruct (index_error _); [injection Eav as <-; discriminate|discriminate]. }
@@ -126,7 +128,7 @@ Qed.
 (* the hypothesis is needed: with a batch size 0 the loop re-queues the model for ever (whatever the fuel) *)
 Example zero_batch_never_terminates :
   let st := [mkM 1 [(mkS 1 0 10 [], [mkT 7 1 100])] [(mkT 7 1 100, 1)]] in
-  forall fuel acc, infer_loop fuel false 0 1 (mkW 1 [] [(1, 0)]) st [(1, [mkS 1 0 10 []])] acc = Err 99.
+  forall fuel acc, infer_loop fuel false 0 1 (mkW 1 [] [(1, 0)] []) st [(1, [mkS 1 0 10 []])] acc = Err 99.
 Proof.
   cbv zeta. induction fuel as [|f IH]; intros acc; [reflexivity|].
   cbn [infer_loop]. vm_compute (cw_not_loaded _). cbv iota. vm_compute (filter _ _). cbv iota.
